@@ -139,3 +139,16 @@ def to_str(a):
 
 def hw(a):
     return bin(a[0]).count("1")
+
+
+def to_bytes(a):
+    """bitstream representation: bit 8j+t of the vector is bit (7-t) of byte j; zero-filled."""
+    v, n = a
+    out = []
+    for j in range((n + 7) // 8):
+        byte = 0
+        for t in range(8):
+            if (v >> (8 * j + t)) & 1:
+                byte |= 1 << (7 - t)
+        out.append(byte)
+    return bytes(out)
